@@ -27,6 +27,8 @@ def enclosing_blocks(n, par):
 
 def check(ctx):
     p = ctx.prog
+    # the callbacks receive the whole checkpoint (no slicing copy)
+    by_reference_parameters(ctx, 'dyn.no_slicing', ['hep::callback::operator()', 'hep::mpi_callback::operator()'], 3)
     ctx.assume('POSIX: rename() replaces the destination atomically; a file opened with O_TRUNC is '
                'empty until data are written; durability across power loss (fsync) is not claimed')
     cbs = instances(p, 'hep::callback::operator()')
@@ -113,6 +115,24 @@ def check(ctx):
                         continue
                     raise AnalysisBroken('%s: cannot show that the temporary path %s differs from filename_ for '
                                          'every file name' % (w, T.pretty(path)[:120]))
+                # the temporary file must be opened truncating: in append / at-end / read-write mode the leftover of
+                # a run that was killed while writing precedes the new data, and that file is renamed into place
+                md = o.get('mode')
+                if md is not None:
+                    flags = set(t[1] for t in T.subterms(md) if isinstance(t, tuple) and len(t) == 2 and t[0] in ('sym', 'enum', 'const')
+                                and isinstance(t[1], str))
+                    flags = set(x.split('::')[-1] for x in flags)
+                    if flags & {'app', 'ate', 'in'}:
+                        ctx.violation('R1.temporary_truncated', w, 'the temporary file is opened with %s: what a killed '
+                                      'run left in it is kept in front of (or overwritten only partly by) the new '
+                                      'checkpoint, and the result is renamed into place'
+                                      % sorted(flags & {'app', 'ate', 'in'}),
+                                      {'crash_point': 'kill during the previous write, then complete one more iteration',
+                                       'mode': T.pretty(md)[:120]})
+                        continue
+                    if not flags or not flags <= {'out', 'trunc', 'binary'}:
+                        raise AnalysisBroken('%s: open mode of the temporary file not recognised: %s' % (w, T.pretty(md)[:120]))
+                ctx.holds('R1.temporary_truncated', w, 'the temporary file is opened truncating (default mode / out|trunc)')
                 ctx.holds('R1.no_truncate_of_final_file', w, 'data are written to a different path derived '
                           'from filename_ (%s), never to the final file' % T.pretty(path)[:80])
                 # serialize into that stream, then close, then rename(tmp, final)
